@@ -7,7 +7,9 @@ from ..core import Fail, Result
 
 ID = "C08"
 RULE = ("case = generic SDE x accepted (method, options incl. grad_free, Levy mode) x (t0, dt, t1, output times) x drawn "
-        "loss weights on all outputs x drawn direction in (y0, every parameter) x entropy, fixed or adaptive steps. The "
+        "loss weights on all outputs x drawn direction in (y0, every parameter) x entropy, fixed or adaptive steps, with y0 "
+        "requiring grad or fixed (direction in parameters only); every accepted cell is enumerated once with either, then "
+        "Hypothesis adds random cases. The "
         "directional derivative from torch.autograd (backprop through sdeint) is compared with the central difference "
         "(eps 1e-5, float64) of the loss along that direction with the Brownian path held fixed (same entropy). Adaptive "
         "cases freeze the schedule: the base run records every error estimate and the +/-eps runs replay them (by "
@@ -32,11 +34,33 @@ def _case(draw, tier):
     return {"spec": spec, "combo": combo, "time": tset, "adaptive": adaptive,
             "outs": draw(st.lists(st.floats(0.02, 0.98), min_size=0, max_size=3)),
             "entropy": draw(st.integers(0, 2 ** 31 - 2)), "wseed": draw(st.integers(0, 2 ** 31 - 1)),
-            "tol": draw(st.sampled_from([1e-1, 1e-2, 1e-3]))}
+            "tol": draw(st.sampled_from([1e-1, 1e-2, 1e-3])),
+            # a fixed initial condition (only the SDE is trained) is a distinct autograd situation: the state entering
+            # the first step carries no graph
+            "y0_grad": draw(st.sampled_from([True, True, False]))}
 
 
 def strategy(tier):
     return _case(tier)
+
+
+def enumerate_cases(tier):
+    """Every accepted (sde_type, noise_type, method, options, Levy mode) cell, with y0 requiring grad and not, on a
+    d = m = 2 (scalar: m = 1) SDE with few steps (so that a per-step or first-step-only defect is not diluted)."""
+    import os
+    import random
+    seed = int(os.environ.get("VERIF_SEED", "1") or 1)
+    for idx, combo in enumerate(sdes.accepted_combos(include_grad_free=True, all_levy=True)):
+        for y0_grad in (True, False):
+            rnd = random.Random(seed * 2003 + idx)
+            nt = combo["noise_type"]
+            spec = {"sde_type": combo["sde_type"], "noise_type": nt, "d": 2, "m": 1 if nt == "scalar" else 2, "batch": 2,
+                    "hidden": 3, "seed": rnd.randrange(2 ** 31), "tdep": True, "fscale": 1.0, "gscale": 0.7,
+                    "dtype": "float64"}
+            yield {"spec": spec, "combo": combo, "time": {"t0": 0.1, "t1": 0.1 + 0.3 * rnd.choice([2, 3]), "dt": 0.3,
+                                                          "tdtype": "float64"},
+                   "adaptive": False, "outs": [0.5], "entropy": rnd.randrange(2 ** 31 - 2),
+                   "wseed": rnd.randrange(2 ** 31), "tol": 1e-2, "y0_grad": y0_grad}
 
 
 def run_case(case):
@@ -50,7 +74,8 @@ def run_case(case):
     gen = torch.Generator().manual_seed(case["wseed"])
     sde0 = sdes.build_generic(spec)
     names = [n for n, _ in sde0.named_parameters()]
-    dir_y = torch.randn(spec["batch"], spec["d"], generator=gen, dtype=torch.float64)
+    y0_grad = case.get("y0_grad", True)
+    dir_y = torch.randn(spec["batch"], spec["d"], generator=gen, dtype=torch.float64) * (1.0 if y0_grad else 0.0)
     dir_p = [torch.randn(p.shape, generator=gen, dtype=torch.float64) for p in sde0.parameters()]
     w = None
     kw = {}
@@ -65,7 +90,7 @@ def run_case(case):
         with torch.no_grad():
             for p, dp in zip(sde.parameters(), dir_p):
                 p.add_(shift * dp)
-        y0 = (sdes.y0_for(spec) + shift * dir_y).requires_grad_(need_grad)
+        y0 = (sdes.y0_for(spec) + shift * dir_y).requires_grad_(need_grad and y0_grad)
         bm = sdes.make_bm(torchsde, spec, ts[0], ts[-1], case["entropy"], levy=combo["levy"])
         real = adaptive_stepping.compute_error
 
@@ -85,7 +110,10 @@ def run_case(case):
                 w = torch.randn(ys.shape, generator=gen, dtype=torch.float64)
             loss = (ys * w).sum()
         if need_grad:
-            grads = torch.autograd.grad(loss, [y0] + list(sde.parameters()), allow_unused=True)
+            inputs = ([y0] if y0_grad else []) + list(sde.parameters())
+            grads = torch.autograd.grad(loss, inputs, allow_unused=True)
+            if not y0_grad:
+                grads = (None,) + tuple(grads)
             return loss.detach(), grads
         return loss, None
 
@@ -112,7 +140,8 @@ def run_case(case):
     floor = 1e-6 * gnorm ** 0.5
     e = abs(an - fd) / max(abs(fd), floor, 1e-300)
     steps = (tm["t1"] - tm["t0"]) / tm["dt"]
-    labels = [solve.combo_label(combo), "adaptive" if case["adaptive"] else "fixed"]
+    labels = [solve.combo_label(combo), "adaptive" if case["adaptive"] else "fixed",
+              "y0_requires_grad" if y0_grad else "y0_fixed"]
     if case["adaptive"]:
         labels.append(f"trials={'>=10' if len(record) >= 10 else '<10'}")
     fail = None
